@@ -316,20 +316,28 @@ class Parser:
             elif self.is_kw("signal") or self.is_kw("variable") or self.is_kw("constant"):
                 kind = self.next().val.lower()
                 line = self.peek().line
-                name = self.ident()
+                names = [self.ident()]
+                while self.accept_sym(","):  # identifier list:  variable a, b : T;
+                    names.append(self.ident())
                 self.sym(":")
                 ty = self.subtype_indication()
                 default = None
                 if self.accept_sym(":="):
                     default = self.expr()
                 self.sym(";")
-                decls.append({"decl": kind, "name": name, "type": ty, "default": default, "line": line})
+                for name in names:
+                    decls.append({"decl": kind, "name": name, "type": ty, "default": default, "line": line})
             elif self.is_kw("type"):
                 self.next()
                 name = self.ident()
                 self.kw("is")
                 if self.accept_kw("array"):
                     self.sym("(")
+                    # optional index subtype mark:  array(natural range 0 to N)
+                    if self.peek().kind == "id" and self.peek().val.lower() in ("natural", "integer", "positive") \
+                            and self.is_kw("range", 1):
+                        self.next()
+                        self.next()
                     l = self.expr()
                     if self.accept_kw("to"):
                         d = "to"
